@@ -141,15 +141,38 @@ func randSsaDoc(r *rng) *ssaDocGT {
 			e.Marked = &b
 		}
 		nl := 1 + r.intn(3)
+		// what a text line can denote: the line's own leading/trailing white space is not representable (the
+		// format strips it), an un-styled run can only be the first run of its line, a run opened by an
+		// override block may have no text (two blocks back to back, or a block at the end of the line) and
+		// its text may begin with a blank; any run that is followed by a block may end with a blank; a line
+		// may be empty (no text, no block), the first line(s) of an event included
+		lead := 0
+		if r.chance(1, 6) {
+			lead = 1 + r.intn(2) // the event starts with one or two empty lines
+			nl += lead
+		}
 		for l := 0; l < nl; l++ {
 			var runs []ssaRunGT
+			if l < lead || (l > 0 && r.chance(1, 10)) {
+				e.Lines = append(e.Lines, runs) // an empty line
+				continue
+			}
 			nr := 1 + r.intn(3)
+			if r.chance(1, 5) {
+				nr++
+			}
 			for k := 0; k < nr; k++ {
 				run := ssaRunGT{Text: r.pick("hello", "Hello, world", "a: b", "x", "c'est ça", "1,2,3", "wait...", "中文")}
 				if k > 0 || r.chance(1, 2) {
 					run.Effect = effects[r.intn(len(effects))]
 				}
-				if k > 0 && k < nr-1 && r.chance(1, 3) {
+				if run.Effect != "" && r.chance(1, 4) {
+					run.Text = "" // a block immediately followed by the next block (or ending the line)
+				}
+				if run.Effect != "" && run.Text != "" && r.chance(1, 6) {
+					run.Text = " " + run.Text
+				}
+				if k < nr-1 && run.Text != "" && r.chance(1, 4) {
 					run.Text += " "
 				}
 				runs = append(runs, run)
@@ -196,16 +219,18 @@ func ssaRenderVal(r *rng, v ssaVal) string {
 	return v.S
 }
 
-func ssaEventText(lines [][]ssaRunGT, nl string) string {
-	var ls []string
-	for _, l := range lines {
-		s := ""
-		for _, ru := range l {
-			s += ru.Effect + ru.Text
+// the separator is chosen per line break: \N and \n may both occur in one event
+func ssaEventText(lines [][]ssaRunGT, nl func() string) string {
+	var b strings.Builder
+	for i, l := range lines {
+		if i > 0 {
+			b.WriteString(nl())
 		}
-		ls = append(ls, s)
+		for _, ru := range l {
+			b.WriteString(ru.Effect + ru.Text)
+		}
 	}
-	return strings.Join(ls, nl)
+	return b.String()
 }
 
 // returns the document and, per section, the columns that were included (the others are not observable)
@@ -322,7 +347,16 @@ func renderSsa(r *rng, d *ssaDocGT) (string, map[string]bool, map[string]bool) {
 	}
 	ecols = append(ecols, "Text") // the text column is last: it takes the remaining commas
 	L = append(L, "Format: "+strings.Join(ecols, ", "))
-	nl := r.pick("\\N", "\\n")
+	nlMode := r.intn(4) // 0: \N everywhere, 1: \n everywhere, 2 and 3: chosen per line break
+	nl := func() string {
+		switch nlMode {
+		case 0:
+			return "\\N"
+		case 1:
+			return "\\n"
+		}
+		return r.pick("\\N", "\\n")
+	}
 	for _, e := range d.Events {
 		var vals []string
 		ip := func(p *int) string {
@@ -678,13 +712,15 @@ func ssaDocsEqual(got, want *ssaDocGT, styleCols, eventCols map[string]bool) str
 			return fmt.Sprintf("event %d: %d lines, want %d", i+1, len(g.Lines), len(w.Lines))
 		}
 		for l := range w.Lines {
-			// canonical: per line the sequence of (rune, effect)
+			// canonical: per line the sequence of runs (override block that opens the run, text up to the next
+			// block); a run without a block and without text denotes nothing (an empty line has no run)
 			canon := func(rs []ssaRunGT) string {
 				var b strings.Builder
 				for _, ru := range rs {
-					for _, c := range ru.Text {
-						fmt.Fprintf(&b, "%c[%s]", c, ru.Effect)
+					if ru.Effect == "" && ru.Text == "" {
+						continue
 					}
+					fmt.Fprintf(&b, "%q%q;", ru.Effect, ru.Text)
 				}
 				return b.String()
 			}
@@ -896,7 +932,7 @@ func decodeSsa(doc []byte) (*ssaDocGT, error) {
 // ---- suite ----------------------------------------------------------------------------------------
 
 func suiteSsa(R *runner, r *rng) {
-	R.rule("ssa: ground-truth documents (script info subsets, comments, 0..3 styles over the 23 attributes, 0..5 dialogue events with all columns, text of 1..3 lines and 1..3 runs with override blocks, commas and colons in text) x renderings (column permutations and subsets in both Format lines, section-name case, v4 / v4+ / 'V4 Styles+', H:MM:SS.cc vs HH:MM:SS.cc, decimal vs &H colours, TertiaryColour alias, *Default, EOL kinds, BOM, junk lines, unknown sections, Comment events); reader vs ground truth on the observable columns; writer output decoded by the independent Format-driven decoder and by the reader; read-then-write byte-equal to the first write; non-trivial = at least one event")
+	R.rule("ssa: ground-truth documents (script info subsets, comments, 0..3 styles over the 23 attributes, 0..5 dialogue events with all columns, text of 1..5 lines and 1..4 runs with override blocks, commas and colons in text, empty lines incl. the first line(s) of an event, override blocks back to back (runs without text), blanks at run boundaries next to a block) x renderings (column permutations and subsets in both Format lines, section-name case, v4 / v4+ / 'V4 Styles+', H:MM:SS.cc vs HH:MM:SS.cc, decimal vs &H colours, TertiaryColour alias, *Default, \\N and \\n mixed inside one event, EOL kinds, BOM, junk lines, unknown sections, Comment events); reader vs ground truth on the observable columns; writer output decoded by the independent Format-driven decoder and by the reader; read-then-write byte-equal to the first write; non-trivial = at least one event")
 	N := 800
 	if R.tier == "thorough" {
 		N = 16000
